@@ -135,10 +135,15 @@ def find (s : Spec) (k : Bytes) : Option Cell := s.cells.find? (fun c => c.key =
 
 def fresh (k : Bytes) : Cell := { key := k, present := false, flags := 0, versions := [] }
 
-/-- apply `f` to the cell of `k` (a fresh absent cell if the key was never seen) -/
-def upsert (cells : List Cell) (k : Bytes) (f : Cell → Cell) : List Cell :=
-  if cells.any (fun c => c.key = k) then cells.map (fun c => if c.key = k then f c else c)
-  else cells ++ [f (fresh k)]
+/-- make sure the key has a cell (a never-seen key gets an absent one) -/
+def ensure (cells : List Cell) (k : Bytes) : List Cell :=
+  if cells.any (fun c => c.key = k) then cells else cells ++ [fresh k]
+
+def modify (cells : List Cell) (k : Bytes) (f : Cell → Cell) : List Cell :=
+  cells.map (fun c => if c.key = k then f c else c)
+
+/-- apply `f` to the cell of `k` -/
+def upsert (cells : List Cell) (k : Bytes) (f : Cell → Cell) : List Cell := modify (ensure cells k) k f
 
 /-- may the version written at clock value `a` still be overwritten in place? (only inside the current stage) -/
 def canModify (marks : List Nat) (a : Nat) : Bool :=
